@@ -112,6 +112,20 @@ def _full_tucker(shape, cshape, core, Us):
     return out
 
 
+def _tucker_bundle_of(shape, cshape, core, Us):
+    """the bundle (dense data, Kruskal weights / factors, Tucker core / factors) of the Tucker tensor [core; Us] (exact integers)"""
+    d = len(shape)
+    data = _full_tucker(shape, cshape, core, Us)
+    weights, cols = [], [[] for _ in range(d)]
+    for j, g in zip(tgen.all_subs(cshape), core):
+        if g:
+            weights.append(g)
+            for n in range(d):
+                cols[n].append([Us[n][i][j[n]] for i in range(shape[n])])
+    kf = [[[cols[n][r][i] for r in range(len(weights))] for i in range(shape[n])] for n in range(d)]
+    return {"shape": list(shape), "data": data, "kw": weights, "kf": kf, "tcs": list(cshape), "tcore": list(core), "tf": Us}
+
+
 def _bundle_tucker(rng, shape, fkinds=None, mag=None):
     """fkinds[n] in generic | unit (signed unit vectors, repeated: unit norm, not orthogonal) | ortho (distinct signed unit vectors) |
     gridnorm (generic directions, norm 1 up to 2^-29, integers to be scaled by 2^-30: key fexp)"""
@@ -134,15 +148,7 @@ def _bundle_tucker(rng, shape, fkinds=None, mag=None):
             Us.append(cu.gridnorm_factor(rng, shape[n], cshape[n]))
         else:
             Us.append([[rng.randint(*(mag or (-2, 2))) for _ in range(cshape[n])] for _ in range(shape[n])])
-    data = _full_tucker(shape, cshape, core, Us)
-    weights, cols = [], [[] for _ in range(d)]
-    for j, g in zip(tgen.all_subs(cshape), core):
-        if g:
-            weights.append(g)
-            for n in range(d):
-                cols[n].append([Us[n][i][j[n]] for i in range(shape[n])])
-    kf = [[[cols[n][r][i] for r in range(len(weights))] for i in range(shape[n])] for n in range(d)]
-    b = {"shape": list(shape), "data": data, "kw": weights, "kf": kf, "tcs": cshape, "tcore": core, "tf": Us}
+    b = _tucker_bundle_of(shape, cshape, core, Us)
     if fkinds and "gridnorm" in fkinds:
         b["fexp"] = [-cu.GRID_BITS if k == "gridnorm" else 0 for k in fkinds]
     return b
@@ -436,6 +442,30 @@ def _emit(cases, b, rp, n, r, flip, shp):
             cases.append(Case(op, a, shp[n] >= 2))
     else:
         cases.append(Case("nvecs", a, shp[n] >= 2))
+
+
+# fixed regression inputs = the witnesses of the repaired findings C14-F4 (4x3 sparse tensor with int64 vals, iterative path) and C14-F5
+# (4x3x2 Tucker tensor with uint8 core / factors whose intermediate products leave the uint8 range); ordinary cases, one accepted behaviour
+_REGRESSION_F4 = dict(shape=[4, 3], data=[3, 0, 2, 0, 0, 1, 0, 0, 0, 0, 0, 1], order="sorted", sseed=0, vdtype="int64", n=0, r=1)
+_REGRESSION_F5 = dict(shape=[4, 3, 2], cshape=[2, 2, 2], core=[5, 0, 7, 11, 3, 9, 0, 12],
+                      Us=[[[1, 12], [9, 4], [0, 7], [11, 2]], [[3, 8], [10, 1], [6, 6]], [[2, 9], [12, 5]]], hdtype="uint8", n=0, r=2)
+
+
+def _regression_dtype_cases():
+    cases = []
+    f4 = dict(_REGRESSION_F4)
+    n, r = f4.pop("n"), f4.pop("r")
+    for vd in ("int64", "int32", "uint8", "float32"):
+        for r_ in (r, 4):       # iterative path (r < I_n - 1) and dense-solver path
+            _emit(cases, dict(f4, vdtype=vd), "sparse", n, r_, True, tuple(f4["shape"]))
+    f5 = _REGRESSION_F5
+    b = _tucker_bundle_of(f5["shape"], f5["cshape"], f5["core"], f5["Us"])
+    b["order"], b["sseed"] = "sorted", 0
+    for hd in ("uint8", "int8", "int16", "float32"):
+        for rp in ("ttensor", "ttensor_sp"):
+            for r_ in (f5["r"], 4):
+                _emit(cases, dict(b, hdtype=hd), rp, f5["n"], r_, True, tuple(f5["shape"]))
+    return cases
 
 
 def _gen_variants(rng, big):
